@@ -3,6 +3,7 @@ package value
 import (
 	"fmt"
 	"sync"
+	"sync/atomic"
 )
 
 var RWMutexClass *Class              // ::Std::Sync::RWMutex
@@ -11,6 +12,9 @@ var RWMutexUnlockedErrorClass *Class // ::Std::Sync::RWMutex::UnlockedError
 // Wraps a Go RWMutex.
 type RWMutex struct {
 	Native sync.RWMutex
+	// track the lock state: unlocking an unlocked sync.RWMutex is an unrecoverable fatal error
+	writeLocked atomic.Bool
+	readers     atomic.Int64
 }
 
 func NewRWMutex() *RWMutex {
@@ -55,29 +59,33 @@ func (*RWMutex) InstanceVariables() *InstanceVariables {
 
 func (m *RWMutex) Lock() {
 	m.Native.Lock()
+	m.writeLocked.Store(true)
 }
 
 func (m *RWMutex) ReadLock() {
 	m.Native.RLock()
+	m.readers.Add(1)
 }
 
 func (m *RWMutex) Unlock() (err Value) {
-	defer func() {
-		if r := recover(); r != nil {
-			err = Ref(NewError(RWMutexUnlockedErrorClass, "a rwmutex that is unlocked for writing cannot be unlocked for writing"))
-		}
-	}()
+	if !m.writeLocked.CompareAndSwap(true, false) {
+		return Ref(NewError(RWMutexUnlockedErrorClass, "a rwmutex that is unlocked for writing cannot be unlocked for writing"))
+	}
 
 	m.Native.Unlock()
 	return Undefined
 }
 
 func (m *RWMutex) ReadUnlock() (err Value) {
-	defer func() {
-		if r := recover(); r != nil {
-			err = Ref(NewError(RWMutexUnlockedErrorClass, "a rwmutex that is unlocked for reading cannot be unlocked for reading"))
+	for {
+		n := m.readers.Load()
+		if n <= 0 {
+			return Ref(NewError(RWMutexUnlockedErrorClass, "a rwmutex that is unlocked for reading cannot be unlocked for reading"))
 		}
-	}()
+		if m.readers.CompareAndSwap(n, n-1) {
+			break
+		}
+	}
 
 	m.Native.RUnlock()
 	return Undefined
